@@ -34,6 +34,8 @@ def gen_case(rng):
     dt = rng.choice('fi')
     sp = gen.spec(rng, dims=dims, sizes=sizes, dtype=dt, narrow=True)
     k = rng.randrange(nd)
+    if what in ('argaxis', 'argwhole', 'argties', 'cumsum', 'cumprod', 'cumdefault'):
+        gen.make_huge(sp, rng)
     c = {"what": what, "a": sp, "k": k, "by_pos": rng.random() < 0.5}
     if what == 'cumprod':
         sp["values"] = (sp["values"] % 5 + 1).astype(sp["values"].dtype)
